@@ -73,8 +73,11 @@ enum Sym {
     Label,
     /// a nested label `.nK` (only legal after a top-level symbol; never padded by labelalign)
     NestedLabel,
+    /// a rule-defined instruction of one address unit (`uN => 1`N`): instructions take part in the overlap bookkeeping
+    /// like data does
+    Instr,
 }
-const SYMS: [Sym; 13] = [Sym::BankA, Sym::BankB, Sym::DataUnit, Sym::DataBit, Sym::DataTwoUnits, Sym::Res1, Sym::Res0, Sym::Align2, Sym::AddrFwd, Sym::AddrStart, Sym::AddrEnd, Sym::Label, Sym::NestedLabel];
+const SYMS: [Sym; 14] = [Sym::BankA, Sym::BankB, Sym::DataUnit, Sym::DataBit, Sym::DataTwoUnits, Sym::Res1, Sym::Res0, Sym::Align2, Sym::AddrFwd, Sym::AddrStart, Sym::AddrEnd, Sym::Label, Sym::NestedLabel, Sym::Instr];
 
 struct Config {
     banks: Vec<BankSrc>,
@@ -219,15 +222,28 @@ fn build_prog(cfg: &Config, seq: &[usize]) -> Prog {
                 nlabel += 1;
                 items.push(Item::Label(format!(".n{}", nlabel)));
             }
+            Sym::Instr => items.push(Item::Instr(format!("u{}", bits))),
         }
     }
-    Prog { ruledefs: vec![], items }
+    let mut widths: Vec<usize> = cfg.banks.iter().map(|b| b.bits.unwrap_or(8)).collect();
+    widths.sort();
+    widths.dedup();
+    let ruledefs = if seq.iter().any(|s| SYMS[*s] == Sym::Instr) {
+        vec![RuleDefSrc { name: None, sub: false, rules: widths.iter().map(|w| RuleSrc::new(&format!("u{}", w), &format!("1`{}", w))).collect() }]
+    } else {
+        vec![]
+    };
+    Prog { ruledefs, items }
 }
 
 fn judge(cfg: &Config, seq: &[usize], l: &mut Local) {
     let prog = build_prog(cfg, seq);
+    judge_prog(&prog, cfg.banks.len() >= 2 || seq.iter().any(|s| SYMS[*s] == Sym::DataBit), l);
+}
+
+fn judge_prog(prog: &Prog, legal_is_nontrivial: bool, l: &mut Local) {
     let src = prog.render();
-    let r = assemble(&prog);
+    let r = assemble(prog);
     l.eval();
     let obs = run::assemble_str(&src, &Opts::iters(30));
     let mut bad: Option<(String, &'static str)> = None;
@@ -247,7 +263,7 @@ fn judge(cfg: &Config, seq: &[usize], l: &mut Local) {
         }
         RefOut::Ok(ok) => {
             l.class("legal");
-            if cfg.banks.len() >= 2 || seq.iter().any(|s| SYMS[*s] == Sym::DataBit) {
+            if legal_is_nontrivial {
                 l.nontrivial(&src);
             }
             if obs.success() {
@@ -314,6 +330,37 @@ pub fn run(ctx: &Ctx) -> Report {
         "model_checking",
         "bank configurations (1..2 banks, thorough: 3; address units 1/3/8/16 bits, sized and unbounded, fill, labelalign, second window adjacent / 1-bit gap / 1-unit gap / 1-bit overlap / before / no output, both definition orders) x all item sequences up to a length over {bank switches, unit/sub-unit/two-unit data, #res, #align, #addr forward/start/end, label}; reference layout decides must-reject, invariants checked on every success. Non-trivial = reference defines the outcome and (>=2 banks or sub-unit data or must-reject); distinct by program text.",
     );
+    // banks whose addresses, counted in bits, no longer fit a machine word, and banks at negative addresses: alignment
+    // to a non-power-of-two (the remainder must be taken of the whole number)
+    {
+        let addrs: [i64; 9] = [1 << 61, (1 << 61) + 1, (1 << 61) + 2, (1 << 62) + 1, -1, -2, -3, -4, 0x7fff_ffff_ffff_fff0];
+        let alpha = ["#d8 1", "#align 24", "#align 16", "L:", "#res 1", "#d8 2", "#align 40"];
+        let la: [Option<usize>; 2] = [None, Some(24)];
+        let maxlen = if ctx.thorough { 4 } else { 3 };
+        let ka = alpha.len() as u64;
+        let per = seq_count(ka, maxlen);
+        rep.absorb(par_run(per * (addrs.len() * la.len()) as u64, |i, l| {
+            let d = decode(i, &[per, addrs.len() as u64, la.len() as u64]);
+            let seq = seq_decode(d[0], ka, maxlen);
+            let bank = BankSrc { name: "a".into(), bits: Some(8), addr: Some(addrs[d[1] as usize]), size: None, outp: Some(0), fill: false, labelalign: la[d[2] as usize] };
+            let mut items = vec![Item::Bankdef(bank), Item::Bank("a".into())];
+            let mut nl = 0;
+            for s in &seq {
+                let t = alpha[*s];
+                if let Some(a) = t.strip_prefix("#align ") {
+                    items.push(Item::Align(a.into()));
+                } else if t == "#res 1" {
+                    items.push(Item::Res("1".into()));
+                } else if t == "L:" {
+                    nl += 1;
+                    items.push(Item::Label(format!("L{}", nl)));
+                } else {
+                    items.push(Item::Data(Some(8), vec![t[4..].trim().to_string()]));
+                }
+            }
+            judge_prog(&Prog { ruledefs: vec![], items }, true, l);
+        }));
+    }
     let cfgs = make_configs(ctx.thorough);
     let k = SYMS.len() as u64;
     let ncfg = cfgs.len() as u64;
